@@ -973,7 +973,7 @@ func (b *modelBuilder) interesting(f *ssa.Function, seen map[*ssa.Function]bool)
 				}
 			}
 			n := calleeName(x)
-			if strings.HasPrefix(n, "net.Dial") || strings.Contains(n, "protocol.Tunnel).Write") || strings.Contains(n, "transport.") {
+			if isDialName(n) || strings.Contains(n, "protocol.Tunnel).Write") || strings.Contains(n, "transport.") {
 				res = true
 				return
 			}
